@@ -40,8 +40,8 @@ Why(c) ==
                    v0 == Total(c, lo - 1)  v1 == Total(c, hi)
                    r == c.obs.returns[k].r
                IN \/ (~PriceChanged(c, lo, hi) /\ ~HasPerfTrx(c, lo, hi) /\ r # 0)       \* (also for the first line under --last)
-                  \/ (~HasFlow(c, lo, hi) /\ v0 > 0
-                        /\ Abs2(r * v0 - 1000 * (v1 - v0)) > v0)        \* r/1000 = v1/v0 - 1 within the printed 0.1%
+                  \/ (~HasFlow(c, lo, hi) /\ v0 # 0                    \* (a net debt has a return too: v0 < 0)
+                        /\ Abs2(r * v0 - 1000 * (v1 - v0)) > Abs2(v0))  \* r/1000 = v1/v0 - 1 within the printed 0.1%
           THEN "return-differs"
      ELSE "ok"
 Init == i = 1 /\ failed = << >>
